@@ -386,7 +386,16 @@ func reifyStruct(opts *options, orig reflect.Value, cfg *Config) Error {
 					return raiseInlineNeedsObject(cfg, fInfo.name, fInfo.value.Type())
 				}
 			} else {
-				fopts := fieldOptions{opts: fInfo.options, tag: fInfo.tagOptions, validators: fInfo.validatorTags}
+				fieldOpts := fInfo.options
+				if len(fieldOpts.inlining) > 0 {
+					// a named field opens a namespace of its own: which struct
+					// types are being inlined around it says nothing about the
+					// nil inline pointers below it
+					named := *fieldOpts
+					named.inlining = nil
+					fieldOpts = &named
+				}
+				fopts := fieldOptions{opts: fieldOpts, tag: fInfo.tagOptions, validators: fInfo.validatorTags}
 				if err := reifyGetField(cfg, fopts, fInfo.name, fInfo.value, fInfo.ftype); err != nil {
 					return err
 				}
